@@ -18,25 +18,26 @@ import (
 )
 
 type JobSpec struct {
-	Pkg        string                      `json:"pkg"`
-	Harness    string                      `json:"harness"`
-	Entries    []string                    `json:"entries"`
-	Unwind     int                         `json:"unwind"`
-	UnwindT    int                         `json:"unwind_thorough"`
-	Splits     int                         `json:"splits"`
-	SplitsT    int                         `json:"splits_thorough"`
-	PerProc    int                         `json:"per_proc"`
-	Reach      []string                    `json:"reach"`
-	TimeoutS   int                         `json:"timeout_s"`
-	TimeoutT   int                         `json:"timeout_s_thorough"`
-	OnlyTier   string                      `json:"only_tier"`
-	Params     map[string]map[string]int64 `json:"params"`
-	FatalViol  bool                        `json:"fatal_is_violation"`
-	MaxPaths   int                         `json:"max_paths"`
-	MaxViol    int                         `json:"stop_after_violations"`
-	Trace      bool                        `json:"trace_mode"`
-	NoValidate bool                        `json:"no_validate"`
-	Kinds      []string                    `json:"kinds"` // violation kinds that belong to this property (empty: all)
+	Pkg         string                      `json:"pkg"`
+	Harness     string                      `json:"harness"`
+	Entries     []string                    `json:"entries"`
+	Unwind      int                         `json:"unwind"`
+	UnwindT     int                         `json:"unwind_thorough"`
+	Splits      int                         `json:"splits"`
+	SplitsT     int                         `json:"splits_thorough"`
+	PerProc     int                         `json:"per_proc"`
+	Reach       []string                    `json:"reach"`
+	TimeoutS    int                         `json:"timeout_s"`
+	TimeoutT    int                         `json:"timeout_s_thorough"`
+	OnlyTier    string                      `json:"only_tier"`
+	Params      map[string]map[string]int64 `json:"params"`
+	FatalViol   bool                        `json:"fatal_is_violation"`
+	MaxPaths    int                         `json:"max_paths"`
+	MaxViol     int                         `json:"stop_after_violations"`
+	MsgPrefixes []string                    `json:"msg_prefixes"` // assertion messages that belong to this property (prefix match; empty: all)
+	Trace       bool                        `json:"trace_mode"`
+	NoValidate  bool                        `json:"no_validate"`
+	Kinds       []string                    `json:"kinds"` // violation kinds that belong to this property (empty: all)
 }
 
 type PropConfig struct {
@@ -333,6 +334,18 @@ func cmdCheck(args []string) int {
 					}
 					if !mine {
 						ev.Notes[fmt.Sprintf("violation of kind %q at %s belongs to another property's check and is not reported here", v.Kind, v.Site)]++
+						continue
+					}
+				}
+				if v.Kind == "assert" && len(j.spec.MsgPrefixes) > 0 {
+					mine := false
+					for _, p := range j.spec.MsgPrefixes {
+						if strings.HasPrefix(v.Msg, p) {
+							mine = true
+						}
+					}
+					if !mine {
+						ev.Notes[fmt.Sprintf("assertion %q belongs to another property's check and is not reported here", v.Msg)]++
 						continue
 					}
 				}
